@@ -114,6 +114,62 @@ fn check_dimacs(clauses: &[Clause], style: usize) -> Option<(String, String)> {
     None
 }
 
+/// DIMACS texts over sparse, large variable numbers: the parsed clause list must be the
+/// written one literal for literal (Cnf, 0-based), and the expression's models over the
+/// occurring variables must be the CNF's (LogicalExpr, labels = DIMACS numbers)
+fn check_dimacs_sparse(clauses: &[Clause], map: &[usize], style: usize) -> Option<(String, String)> {
+    let k = map.len();
+    let wide: Vec<Clause> = clauses.iter().map(|c| c.iter().map(|&(v, p)| (map[v], p)).collect()).collect();
+    let nn = num_vars(&wide);
+    if nn == 0 {
+        return None;
+    }
+    let text = dimacs_text(&wide, nn, style);
+    match guarded(|| Cnf::from_dimacs(&text)) {
+        Ok(c) => {
+            let cl = clauses_of(&c);
+            // a clause is a set of literals and a CNF a multiset of clauses: order is not semantic
+            let norm = |v: &Vec<Clause>| -> Vec<std::collections::BTreeSet<Lit>> {
+                let mut x: Vec<std::collections::BTreeSet<Lit>> = v.iter().map(|c| c.iter().cloned().collect()).collect();
+                x.sort();
+                x
+            };
+            if norm(&cl) != norm(&wide) {
+                return Some(("dimacs-cnf".into(), format!("layout {}: Cnf::from_dimacs gives {:?}, the text says {:?}", style, cl, wide)));
+            }
+        }
+        Err(p) => return Some(("dimacs-cnf".into(), format!("layout {}: Cnf::from_dimacs panicked on {:?}: {}", style, text, p))),
+    }
+    if !clauses.is_empty() && clauses.iter().all(|c| !c.is_empty()) {
+        fn ev(e: &LogicalExpr, k: usize, idx: &dyn Fn(usize) -> Option<usize>) -> Result<TT, String> {
+            Ok(match e {
+                LogicalExpr::Literal(v, p) => tt::lit(idx(*v).ok_or_else(|| format!("literal on label {} which the text does not mention", v))?, *p, k),
+                LogicalExpr::Not(a) => tt::not(ev(a, k, idx)?, k),
+                LogicalExpr::And(a, b) => ev(a, k, idx)? & ev(b, k, idx)?,
+                LogicalExpr::Or(a, b) => ev(a, k, idx)? | ev(b, k, idx)?,
+                LogicalExpr::Iff(a, b) => tt::iff(ev(a, k, idx)?, ev(b, k, idx)?, k),
+                LogicalExpr::Xor(a, b) => ev(a, k, idx)? ^ ev(b, k, idx)?,
+                LogicalExpr::Ite { guard, thn, els } => tt::ite(ev(guard, k, idx)?, ev(thn, k, idx)?, ev(els, k, idx)?, k),
+            })
+        }
+        // DIMACS variable (label + 1) is the expression's label
+        let idx = |l: usize| map.iter().position(|&m| m + 1 == l);
+        match guarded(|| LogicalExpr::from_dimacs(&text)) {
+            Ok(e) => match ev(&e, k, &idx) {
+                Ok(g) => {
+                    let want = tt::of_cnf(clauses, k);
+                    if g != want {
+                        return Some(("dimacs-expr".into(), format!("layout {}: LogicalExpr::from_dimacs denotes {:#x} over the occurring variables, the text {:#x}", style, g, want)));
+                    }
+                }
+                Err(m) => return Some(("dimacs-expr".into(), m)),
+            },
+            Err(p) => return Some(("dimacs-expr".into(), format!("LogicalExpr::from_dimacs panicked: {}", p))),
+        }
+    }
+    None
+}
+
 fn check_sexpr(e: &Ex) -> Option<(String, String)> {
     let (f, n) = e.tt();
     let text = e.sexpr();
@@ -305,6 +361,40 @@ pub fn run(ctx: &Ctx) -> Report {
         rep.bound("long_inputs", json!({"max_literals_per_clause": maxk, "max_clauses": maxk, "marked_positions": "every i <= j"}));
         rep.merge(fam);
     }
+    // sparse, large variable numbers
+    {
+        let t3 = clause_types(3);
+        let mut sets = sequences(64, 2);
+        if ctx.tier == Tier::Thorough {
+            sets.extend(multisets(64, 3).into_iter().filter(|m| m.len() == 3).step_by(7));
+        }
+        let maps: Vec<[usize; 3]> = vec![[0, 64, 1], [63, 64, 127], [999, 0, 65535]];
+        let chunks: Vec<&[Vec<usize>]> = sets.chunks(128).collect();
+        let fam = par_run(ctx, &chunks, |_, chunk| {
+            let mut r = Report::default();
+            r.exhaustive = true;
+            for s in chunk.iter() {
+                let clauses: Vec<Clause> = s.iter().map(|&i| t3[i].clone()).collect();
+                for m in maps.iter() {
+                    r.states += 1;
+                    for style in [0usize, 2] {
+                        r.transitions += 1;
+                        r.traces += 1;
+                        if let Some((k, w)) = check_dimacs_sparse(&clauses, m, style) {
+                            r.violation(format!("parse:{}", k), format!("cnf {} relabelled by {:?}: {}", cnf_json(&clauses), m, w), json!({"kind": "dimacs_sparse", "cnf": cnf_json(&clauses), "map": m.to_vec(), "style": style}));
+                        }
+                    }
+                }
+                if r.n_violations > 16 {
+                    break;
+                }
+            }
+            r
+        });
+        rep.add_extra("sparse_number_clause_lists", fam.states);
+        rep.bound("sparse_variable_numbers", json!({"label_maps": maps.iter().map(|m| m.to_vec()).collect::<Vec<_>>(), "cnfs": sets.len()}));
+        rep.merge(fam);
+    }
     // s-expressions
     let k = ctx.tier.pick(2, 3);
     let mut ex = exprs_up_to(k, 3);
@@ -379,6 +469,15 @@ pub fn replay(_ctx: &Ctx, case: &Value) -> Report {
     let mut rep = Report::default();
     let arr = |v: &Value| -> Vec<usize> { v.as_array().map(|a| a.iter().filter_map(|x| x.as_u64()).map(|x| x as usize).collect()).unwrap_or_default() };
     match case["kind"].as_str() {
+        Some("dimacs_sparse") => {
+            let c = cnf_from_json(&case["cnf"]);
+            let m = arr(&case["map"]);
+            if m.len() == 3 {
+                if let Some((k, w)) = check_dimacs_sparse(&c, &m, case["style"].as_u64().unwrap_or(0) as usize) {
+                    rep.violation(format!("parse:{}", k), w, case.clone());
+                }
+            }
+        }
         Some("dimacs") => {
             let c = cnf_from_json(&case["cnf"]);
             if let Some((k, w)) = check_dimacs(&c, case["style"].as_u64().unwrap_or(0) as usize) {
